@@ -89,7 +89,8 @@ class OutcomeMap(object):
     """
 
     def __init__(self, outcomes, default=None):
-        self.outcomes = outcomes or {}
+        import copy
+        self.outcomes = copy.deepcopy(outcomes or {})
         self.default = default or ['ok', 'a']
         self.occ = {}      # task_id -> occurrence
         self.count = {}    # task name -> instances seen
